@@ -57,7 +57,7 @@ fn tree_dump(model: &AutosarModel) -> String {
 }
 
 /// check one file of a loaded model against all 21 targets
-fn check_file(rep: &mut Report, model: &AutosarModel, file: &ArxmlFile, source: AutosarVersion, doc_bytes: &[u8], multi: bool) {
+fn check_file(rep: &mut Report, model: &AutosarModel, file: &ArxmlFile, source: AutosarVersion, doc_bytes: &[u8], multi: bool, reload_leniently: bool) {
     let Ok(text) = file.serialize() else {
         rep.count("files_not_serializable(skipped)", 1);
         return;
@@ -96,9 +96,19 @@ fn check_file(rep: &mut Report, model: &AutosarModel, file: &ArxmlFile, source: 
         }
         // set_version on a copy of the model (duplicate keeps file names and versions)
         let before = tree_dump(model);
-        let Ok(copy) = model.duplicate() else {
-            rep.count("duplicate_failed(skipped set_version)", 1);
-            continue;
+        // (a leniently loaded file may hold content that duplicate() filters out: there the copy is made by loading the bytes again)
+        let copy = if reload_leniently {
+            let m = AutosarModel::new();
+            if m.load_buffer(doc_bytes, file.filename(), false).is_err() {
+                continue;
+            }
+            m
+        } else {
+            let Ok(copy) = model.duplicate() else {
+                rep.count("duplicate_failed(skipped set_version)", 1);
+                continue;
+            };
+            copy
         };
         let Some(cfile) = copy.files().find(|f| f.filename() == file.filename()) else { continue };
         let cbefore = tree_dump(&copy);
@@ -196,6 +206,28 @@ pub fn run(rep: &mut Report, tier: &str) {
                     }
                 }
             }
+            // every fourth case: the document is labelled with another version and loaded leniently, so that the file may hold
+            // content that is not valid for its own version (check and set_version are owed for such files and targets as well)
+            let source_of_doc = source;
+            let mut source = source;
+            if loaded.is_none() && case % 4 == 2 {
+                let label = random_version(&mut rng);
+                if label != source {
+                    let text = String::from_utf8_lossy(&bytes).into_owned();
+                    let relabelled = relabel(&text, source, label);
+                    if let Ok((file, warnings)) = model.load_buffer(relabelled.as_bytes(), "a.arxml", false) {
+                        sub.count("documents.mislabelled_and_loaded_leniently", 1);
+                        if !warnings.is_empty() {
+                            sub.count("documents.mislabelled_with_warnings", 1);
+                        }
+                        bytes = relabelled.into_bytes();
+                        loaded = Some(file);
+                        source = label;
+                    } else {
+                        model = AutosarModel::new();
+                    }
+                }
+            }
             let file = match loaded {
                 Some(f) => f,
                 None => {
@@ -207,7 +239,8 @@ pub fn run(rep: &mut Report, tier: &str) {
                 }
             };
             sub.count("documents", 1);
-            let multi = case % 3 == 0;
+            let mislabelled = source != source_of_doc;
+            let multi = case % 3 == 0 && !mislabelled;
             if multi {
                 // a second file with other content in another package
                 let (mut doc2, _) = random_chunk_doc(&mut rng, seed, source, 2, false);
@@ -233,7 +266,7 @@ pub fn run(rep: &mut Report, tier: &str) {
                     sub.count("documents.two_files_sharing_a_package", 1);
                 }
             }
-            check_file(sub, &model, &file, source, &bytes, multi);
+            check_file(sub, &model, &file, source, &bytes, multi, mislabelled);
             if case < 2 {
                 sub.sample(J::obj().with("source", J::s(source.filename())).with("two_files", J::Bool(multi)).with("text", J::s(show_bytes(&bytes, 600))));
             }
@@ -241,6 +274,7 @@ pub fn run(rep: &mut Report, tier: &str) {
     });
     rep.require("documents", (n / 2) as u64);
     rep.require("documents.with_emptied_elements", (n / 20) as u64);
+    rep.require("documents.mislabelled_with_warnings", (n / 100) as u64);
     rep.require("documents.two_files_sharing_a_package", (n / 40) as u64);
     rep.require("pairs.accepted_by_strict_load", 2000);
     rep.require("pairs.rejected_by_strict_load", 2000);
